@@ -78,7 +78,8 @@ func (r *Report) finish(evdir string, writeEvidence bool) int {
 	isKnown := func(name string) *KnownFinding {
 		for i := range known.Findings {
 			k := &known.Findings[i]
-			if k.Obligation == name && (k.Property == r.Prop || r.Prop == "all") {
+			// "any": the obligation belongs to a unit that several properties' checks contain
+			if k.Obligation == name && (k.Property == r.Prop || r.Prop == "all" || k.Property == "any") {
 				return k
 			}
 		}
